@@ -47,8 +47,31 @@ struct Case {
     /// 0 = runner A only; 1 = runner B too; 2 = runner B without the dispatched-request count in
     /// the model comparison (set by `emit_case` for cases of class F25)
     with_b: u8,
+    /// runner B schedule: the handler of the i-th dispatched request stays Pending for
+    /// `delays[i]` polls (odd: before reading its payload, even: after); missing = 0
+    #[serde(default)]
+    delays: Vec<u8>,
+    /// runner B schedule: the first `wblock` socket writes return Pending (the writer is woken
+    /// again when the connection has gone quiet)
+    #[serde(default)]
+    wblock: u8,
     #[serde(default)]
     tags: Vec<String>,
+}
+
+/// a future that is Pending for `k` polls, waking itself each time
+struct PendingFor(u8);
+impl std::future::Future for PendingFor {
+    type Output = ();
+    fn poll(mut self: std::pin::Pin<&mut Self>, cx: &mut std::task::Context<'_>) -> std::task::Poll<()> {
+        if self.0 == 0 {
+            std::task::Poll::Ready(())
+        } else {
+            self.0 -= 1;
+            cx.waker().wake_by_ref();
+            std::task::Poll::Pending
+        }
+    }
 }
 
 fn stream_of(ps: &[Piece]) -> Vec<u8> {
@@ -257,6 +280,8 @@ struct Disp {
     dispatched: usize,
     closed: bool,
     handler_statuses: usize,
+    /// no response of the handler was written after a response of the dispatcher's own
+    own_last: bool,
 }
 
 fn parse_responses(mut w: &[u8]) -> Vec<(u16, bool)> {
@@ -284,31 +309,48 @@ fn parse_responses(mut w: &[u8]) -> Vec<(u16, bool)> {
     out
 }
 
-fn run_b(segs: &[Vec<u8>]) -> Disp {
+fn run_b(segs: &[Vec<u8>], delays: &[u8], wblock: u8) -> Disp {
+    let delays = delays.to_vec();
     vh::exec::run_local(async {
         tokio::time::pause();
         let io = ScriptIo::new();
+        io.script_writes(&vec![WriteStep::Pending; wblock as usize]);
         let calls = Rc::new(Cell::new(0usize));
         let calls2 = calls.clone();
         let mut conn = Conn::start(ConnCfg::default(), io.clone(), move |mut req: Request| {
+            let k = delays.get(calls2.get()).copied().unwrap_or(0);
             calls2.set(calls2.get() + 1);
             async move {
+                if k % 2 == 1 {
+                    PendingFor(k).await;
+                }
                 let mut pl = req.take_payload();
                 while let Some(item) = pl.next().await {
                     if item.is_err() {
                         break;
                     }
                 }
+                if k % 2 == 0 {
+                    PendingFor(k).await;
+                }
                 Ok::<_, Error>(Response::ok().insert_header_marker().set_body("ok"))
             }
         })
         .await;
         let mut written = vec![];
-        let drive = |conn: &mut Conn| {
-            for _ in 0..64 {
+        let io2 = io.clone();
+        let drive = move |conn: &mut Conn| {
+            for _ in 0..400 {
                 conn.poll();
-                if conn.finished.is_some() || conn.woken() == 0 {
+                if conn.finished.is_some() {
                     break;
+                }
+                if conn.woken() == 0 {
+                    // quiet: release a writer blocked by the write script, if any
+                    io2.script_writes(&[]);
+                    if conn.woken() == 0 {
+                        break;
+                    }
                 }
             }
         };
@@ -337,6 +379,10 @@ fn run_b(segs: &[Vec<u8>]) -> Disp {
             dispatched: calls.get(),
             closed,
             handler_statuses: rs.iter().filter(|r| r.1).count(),
+            own_last: match rs.iter().position(|r| !r.1 && r.0 != 100) {
+                Some(i) => rs[i + 1..].iter().all(|r| !r.1),
+                None => true,
+            },
         }
     })
 }
@@ -681,6 +727,12 @@ fn judge(a: &Outcome, base: &Outcome, b: Option<&Disp>, r: &RefOut) -> (bool, St
                     };
                     fails.push((format!("rejected stream ({c}): dispatcher's own responses {:?}, want [{want}]", d.own_statuses), explain(cl, allowed)));
                 }
+                if !d.own_last {
+                    fails.push((
+                        "a handler response was written after the rejection response: bytes after the point of rejection were interpreted as a request".into(),
+                        explain(cl, &["F19-head-in-band"]),
+                    ));
+                }
                 if !d.closed {
                     fails.push(("rejected stream: connection not closed".into(), explain(cl, &["F19-head-in-band"])));
                 }
@@ -750,7 +802,7 @@ fn emit_case(em: &mut Emitter, id: String, mut case: Case) {
     let res = catch(|| {
         let a = run_a(&segs);
         let base = run_a(&segments(&baseline_seg(data.len()), &data));
-        let b = if case.with_b != 0 { Some(run_b(&segs)) } else { None };
+        let b = if case.with_b != 0 { Some(run_b(&segs, &case.delays, case.wblock)) } else { None };
         (a, base, b)
     });
     let mut tags = case.tags.clone();
@@ -1201,7 +1253,24 @@ fn gen_case(rng: &mut Rng, thorough: bool) -> Case {
     };
     let nseg = match &seg { Seg::Every(k) => len / k + 1, Seg::Cuts(c) => c.len() + 1 };
     let with_b = (want_b && all_plain && nseg <= 3000) as u8;
-    Case { pieces, seg, with_b, tags: b.tags.into_iter().collect() }
+    // runner B schedules: slow handlers (Pending for a few polls) and blocked socket writes, so
+    // that poll_request runs again while earlier pipelined requests are still in flight
+    let (mut delays, mut wblock) = (vec![], 0u8);
+    if with_b != 0 && rng.chance(2, 3) {
+        delays = (0..n).map(|_| *rng.pick(&[0u8, 0, 1, 2, 3, 4, 7])).collect();
+        if rng.chance(1, 2) {
+            delays[0] = *rng.pick(&[1u8, 2, 3, 5]);
+        }
+        wblock = *rng.pick(&[0u8, 0, 1, 2, 5]);
+        b.tag("sched:slow-handlers");
+        if wblock > 0 {
+            b.tag("sched:blocked-writes");
+        }
+        if malformed && bad_at >= 1 && bad_at + 1 < n {
+            b.tag("sched:malformed-behind-slow+more-after");
+        }
+    }
+    Case { pieces, seg, with_b, delays, wblock, tags: b.tags.into_iter().collect() }
 }
 
 fn truncate_pieces(ps: &[Piece], keep: usize) -> Vec<Piece> {
